@@ -366,7 +366,12 @@ Varable failures: {var_failed}
                     )
 
         if props and dimensions:
-            out.updatemeta()
+            if variables:
+                out.updatemeta()
+            else:
+                # without variables the list cannot be re-derived; callers
+                # (mask, operators, insertDimension) add them afterwards
+                out.updatetflag()
 
         return out
 
